@@ -34,6 +34,7 @@ type Sched struct {
 	held     map[uint64]int // per goroutine: locks of the library currently held (instrumented build)
 	free     bool           // VERIF_FREERUN: no cooperative scheduling, tasks are plain goroutines (used to tell a hang of the library from one the simulator induced)
 	freeWG   sync.WaitGroup
+	soft     int // inserted yield sites passed in this run
 	GCAtStep int // scheduler step before which a garbage collection is forced (-1: none)
 }
 
@@ -139,6 +140,15 @@ func (s *Sched) Yield(site string, key ...int) {
 	if s.held[gid] > 0 {
 		s.mu.Unlock()
 		return
+	}
+	if strings.HasPrefix(site, "sync.") || strings.HasPrefix(site, "chan.") || strings.HasPrefix(site, "go.") {
+		// inserted sites in a hot loop (a lock or an atomic per character) would multiply the steps of a run by
+		// thousands: after 20000 of them in one run the rest are passed without a switch
+		s.soft++
+		if s.soft > 20000 {
+			s.mu.Unlock()
+			return
+		}
 	}
 	t := s.byGid[gid]
 	if t == nil && (strings.HasPrefix(site, "sync.") || strings.HasPrefix(site, "chan.") || strings.HasPrefix(site, "go.")) {
